@@ -4,9 +4,15 @@ use super::{
 };
 use crate::app::compass::compass_app_error::CompassAppError;
 use serde::{Deserialize, Serialize};
+#[cfg(not(routee_compass_verif))]
 use std::{
     path::PathBuf,
     sync::{Arc, Mutex},
+};
+#[cfg(routee_compass_verif)]
+use {
+    routee_compass_core::util::verif_sync::Mutex,
+    std::{path::PathBuf, sync::Arc},
 };
 
 #[derive(Deserialize, Serialize, Clone, Debug)]
@@ -39,6 +45,8 @@ impl ResponseOutputPolicy {
             } => {
                 let output_file_path = PathBuf::from(filename);
                 let file = WriteMode::Append.open_file(&output_file_path, format)?;
+                #[cfg(routee_compass_verif)]
+                let file = routee_compass_core::util::verif_sync::File::from(file);
 
                 // wrap the file in a mutex so we can share it between threads
                 let file_shareable = Arc::new(Mutex::new(file));
